@@ -50,7 +50,16 @@ impl Stats {
 pub struct StepOut<S> {
     /// successor (None: do not expand, e.g. after a violation that leaves the state meaningless)
     pub next: Option<S>,
+    /// further successors of the same event under environment deviations (sub-event id > 0, e.g. a
+    /// sink fault at call k); each is an execution of its own and is counted as a transition
+    pub extra: Vec<(u16, S)>,
     pub viols: Vec<Viol>,
+}
+
+impl<S> StepOut<S> {
+    pub fn new(next: Option<S>, viols: Vec<Viol>) -> Self {
+        StepOut { next, extra: vec![], viols }
+    }
 }
 
 pub trait Model: Sync {
@@ -66,6 +75,26 @@ pub trait Model: Sync {
     /// human/JSON rendering of an event for replay files
     fn render_event(&self, e: &Self::Event) -> String {
         format!("{:?}", e)
+    }
+    /// rendering of a sub-event id (environment deviation) for paths
+    fn render_sub(&self, sub: u16) -> String {
+        format!("!dev{}", sub)
+    }
+}
+
+fn render_step<M: Model>(m: &M, events: &[M::Event], e: u16, sub: u16) -> String {
+    if sub == 0 {
+        m.render_event(&events[e as usize])
+    } else {
+        format!("{} {}", m.render_event(&events[e as usize]), m.render_sub(sub))
+    }
+}
+
+/// parse the sub-event id back out of a rendered path step
+fn split_step(r: &str) -> (&str, Option<&str>) {
+    match r.rfind(" !") {
+        Some(i) => (&r[..i], Some(&r[i + 1..])),
+        None => (r, None),
     }
 }
 
@@ -119,6 +148,18 @@ pub struct Outcome {
     pub changing_transitions: u64,
 }
 
+/// `MCX_JOURNAL=<file>`: append, before every transition, the path and event about to be executed
+/// (used by the driver to recover a replay when the library aborts the process).
+pub fn journal_file() -> Option<std::sync::Arc<std::sync::Mutex<std::fs::File>>> {
+    static J: std::sync::OnceLock<Option<std::sync::Arc<std::sync::Mutex<std::fs::File>>>> = std::sync::OnceLock::new();
+    J.get_or_init(|| {
+        std::env::var("MCX_JOURNAL").ok().and_then(|p| {
+            std::fs::OpenOptions::new().create(true).append(true).open(p).ok().map(|f| std::sync::Arc::new(std::sync::Mutex::new(f)))
+        })
+    })
+    .clone()
+}
+
 pub fn rss_mb() -> usize {
     if let Ok(s) = std::fs::read_to_string("/proc/self/statm") {
         if let Some(r) = s.split_whitespace().nth(1) {
@@ -134,6 +175,7 @@ const KEEP_PER_CLASS: usize = 3;
 
 struct Cand<K, S> {
     ev: u16,
+    sub: u16,
     key: K,
     state: S,
 }
@@ -157,7 +199,7 @@ pub fn explore<M: Model>(m: &M, caps: &Caps, seed: u64) -> Outcome {
     };
     let mut seen: HashMap<M::Key, u32> = HashMap::new();
     // (parent id, event index); parent == u32::MAX for initial states (event index = init index)
-    let mut parents: Vec<(u32, u16)> = vec![];
+    let mut parents: Vec<(u32, u16, u16)> = vec![];
     let inits = m.inits();
     let mut frontier: Vec<(u32, M::State)> = vec![];
     for (i, (_, s)) in inits.iter().enumerate() {
@@ -165,7 +207,7 @@ pub fn explore<M: Model>(m: &M, caps: &Caps, seed: u64) -> Outcome {
         if !seen.contains_key(&k) {
             let id = parents.len() as u32;
             seen.insert(k, id);
-            parents.push((u32::MAX, i as u16));
+            parents.push((u32::MAX, i as u16, 0));
             frontier.push((id, s.clone()));
         }
     }
@@ -196,9 +238,27 @@ pub fn explore<M: Model>(m: &M, caps: &Caps, seed: u64) -> Outcome {
         }
         let seen_ref = &seen;
         let events_ref = &events;
-        let expanded: Vec<Expanded<M::Key, M::State>> = frontier
-            .par_iter()
-            .map(|(_, s)| {
+        let journal = journal_file();
+        let expand_one = |(sid, s): &(u32, M::State)| {
+                if let Some(j) = &journal {
+                    // journal mode (single-threaded rerun after an abort): record what is about to run
+                    use std::io::Write;
+                    let mut id = *sid;
+                    let mut evs: Vec<String> = vec![];
+                    let init;
+                    loop {
+                        let (p, e, sub) = parents[id as usize];
+                        if p == u32::MAX {
+                            init = inits[e as usize].0.clone();
+                            break;
+                        }
+                        evs.push(render_step(m, events_ref, e, sub));
+                        id = p;
+                    }
+                    evs.reverse();
+                    let mut f = j.lock().unwrap();
+                    let _ = writeln!(f, "STATE\t{}\t{}\t{}", m.name(), init, serde_json::to_string(&evs).unwrap());
+                }
                 let mut ex = Expanded {
                     cands: vec![],
                     viols: vec![],
@@ -208,18 +268,30 @@ pub fn explore<M: Model>(m: &M, caps: &Caps, seed: u64) -> Outcome {
                 };
                 let own = m.key(s);
                 for (ei, e) in events_ref.iter().enumerate() {
+                    if let Some(j) = &journal {
+                        use std::io::Write;
+                        let mut f = j.lock().unwrap();
+                        let _ = writeln!(f, "EV\t{}", m.render_event(e));
+                    }
                     let so = m.step(s, e, &mut ex.stats);
                     ex.transitions += 1;
                     for v in so.viols {
                         ex.viols.push((ei as u16, v));
                     }
+                    let mut succ: Vec<(u16, M::State)> = vec![];
                     if let Some(n) = so.next {
+                        succ.push((0, n));
+                    }
+                    ex.transitions += so.extra.len() as u64;
+                    succ.extend(so.extra);
+                    for (sub, n) in succ {
                         let k = m.key(&n);
                         if k != own {
                             ex.changing += 1;
                             if !seen_ref.contains_key(&k) {
                                 ex.cands.push(Cand {
                                     ev: ei as u16,
+                                    sub,
                                     key: k,
                                     state: n,
                                 });
@@ -228,8 +300,12 @@ pub fn explore<M: Model>(m: &M, caps: &Caps, seed: u64) -> Outcome {
                     }
                 }
                 ex
-            })
-            .collect();
+            };
+        let expanded: Vec<Expanded<M::Key, M::State>> = if journal.is_some() {
+            frontier.iter().map(expand_one).collect()
+        } else {
+            frontier.par_iter().map(expand_one).collect()
+        };
         let mut next: Vec<(u32, M::State)> = vec![];
         for ((pid, _), ex) in frontier.iter().zip(expanded.into_iter()) {
             out.transitions += ex.transitions;
@@ -246,7 +322,7 @@ pub fn explore<M: Model>(m: &M, caps: &Caps, seed: u64) -> Outcome {
                 if !seen.contains_key(&c.key) {
                     let id = parents.len() as u32;
                     seen.insert(c.key, id);
-                    parents.push((*pid, c.ev));
+                    parents.push((*pid, c.ev, c.sub));
                     next.push((id, c.state));
                 }
             }
@@ -258,15 +334,15 @@ pub fn explore<M: Model>(m: &M, caps: &Caps, seed: u64) -> Outcome {
     out.states = seen.len() as u64;
     out.exhaustive = exhaustive;
 
-    let path_of = |mut id: u32| -> (usize, Vec<u16>) {
+    let path_of = |mut id: u32| -> (usize, Vec<(u16, u16)>) {
         let mut evs = vec![];
         loop {
-            let (p, e) = parents[id as usize];
+            let (p, e, sub) = parents[id as usize];
             if p == u32::MAX {
                 evs.reverse();
                 return (e as usize, evs);
             }
-            evs.push(e);
+            evs.push((e, sub));
             id = p;
         }
     };
@@ -274,18 +350,19 @@ pub fn explore<M: Model>(m: &M, caps: &Caps, seed: u64) -> Outcome {
     // replay every kept violation twice from the initial state: it must reproduce identically
     for (pid, ei, v) in &raw_viols {
         let (ii, mut evs) = path_of(*pid);
-        evs.push(*ei);
+        evs.push((*ei, 0));
         let mut ok = true;
         for _round in 0..2 {
             let mut s = inits[ii].1.clone();
             let mut st = Stats::default();
             let mut hit = false;
-            for (i, e) in evs.iter().enumerate() {
+            for (i, (e, sub)) in evs.iter().enumerate() {
                 let so = m.step(&s, &events[*e as usize], &mut st);
                 if i + 1 == evs.len() {
                     hit = so.viols.iter().any(|x| x.class == v.class);
                 } else {
-                    match so.next {
+                    let nx = if *sub == 0 { so.next } else { so.extra.into_iter().find(|(x, _)| x == sub).map(|(_, n)| n) };
+                    match nx {
                         Some(n) => s = n,
                         None => break,
                     }
@@ -297,7 +374,7 @@ pub fn explore<M: Model>(m: &M, caps: &Caps, seed: u64) -> Outcome {
             class: v.class.clone(),
             detail: v.detail.clone(),
             init: inits[ii].0.clone(),
-            path: evs.iter().map(|e| m.render_event(&events[*e as usize])).collect(),
+            path: evs.iter().map(|(e, sub)| render_step(m, &events, *e, *sub)).collect(),
             depth: evs.len(),
             reproduced: ok,
         });
@@ -312,13 +389,13 @@ pub fn explore<M: Model>(m: &M, caps: &Caps, seed: u64) -> Outcome {
             let id = ((x >> 33) % n) as u32;
             let (ii, evs) = path_of(id);
             let mut p = vec![format!("init:{}", inits[ii].0)];
-            p.extend(evs.iter().map(|e| m.render_event(&events[*e as usize])));
+            p.extend(evs.iter().map(|(e, sub)| render_step(m, &events, *e, *sub)));
             out.samples.push(p);
         }
         // always include the deepest state
         let (ii, evs) = path_of((n - 1) as u32);
         let mut p = vec![format!("init:{}", inits[ii].0)];
-        p.extend(evs.iter().map(|e| m.render_event(&events[*e as usize])));
+        p.extend(evs.iter().map(|(e, sub)| render_step(m, &events, *e, *sub)));
         out.samples.push(p);
     }
     out.wall_s = t0.elapsed().as_secs_f64();
@@ -347,7 +424,9 @@ pub fn maybe_replay<M: Model>(m: &M) -> Option<Outcome> {
     let mut st = Stats::default();
     println!("REPLAY exploration={:?} init={:?}", name, init);
     for (i, r) in path.iter().enumerate() {
-        let Some(e) = events.iter().find(|e| &m.render_event(e) == r) else {
+        let (base, subr) = split_step(r);
+        let (base, subr) = if events.iter().any(|e| m.render_event(e) == *r) { (r.as_str(), None) } else { (base, subr) };
+        let Some(e) = events.iter().find(|e| m.render_event(e) == base) else {
             println!("REPLAY-ERROR event {:?} is not in the alphabet of {:?}", r, name);
             return Some(out);
         };
@@ -357,7 +436,11 @@ pub fn maybe_replay<M: Model>(m: &M) -> Option<Outcome> {
             println!("  REPLAY-VIOLATION class={} {}", v.class, v.detail);
             *out.viol_counts.entry(v.class.clone()).or_insert(0) += 1;
         }
-        match so.next {
+        let nx = match subr {
+            None => so.next,
+            Some(sr) => so.extra.into_iter().find(|(x, _)| m.render_sub(*x) == sr).map(|(_, n)| n),
+        };
+        match nx {
             Some(n) => s = n,
             None => break,
         }
